@@ -5,9 +5,11 @@ from __future__ import annotations
 
 import ast
 
+from sa import minieval as _me
+from sa import pat as _pat
 from sa import source
 from sa.cfg import cfg_of, guards
-from sa.classes import ActorModel, is_failure_send
+from sa.classes import ActorModel, is_failure_send, is_logging_stmt
 from sa.source import AnchorMissing, dotted, inline, is_self_attr, last_attr, local_defs, package_calls, params_of, short, u, walk_body
 from sa.sym import parse_expr, rat_equal
 
@@ -20,6 +22,22 @@ def _has_jump(loop):
         if isinstance(n, (ast.Break, ast.Continue, ast.Return)):
             return True
     return False
+
+
+def _call_fact(node, name, positive, stop=None):
+    """a guard fact of node (polarity-insensitive: negations pushed in, conjunctions split) is the call `<x>.name(...)` (positive) / its negation."""
+    for f in _pat.fact_nodes(node, stop=stop):
+        if not positive and isinstance(f, ast.UnaryOp) and isinstance(f.op, ast.Not):
+            f = f.operand
+        elif not positive:
+            continue
+        if isinstance(f, ast.Call) and last_attr(f.func) == name:
+            return True
+    return False
+
+
+def _is_not(f, pred):
+    return isinstance(f, ast.UnaryOp) and isinstance(f.op, ast.Not) and pred(f.operand)
 
 
 def executor_wiring(chk, rid, drv):
@@ -85,9 +103,10 @@ def run(chk):
     rowcount = None
     matrix = None
     for n in walk_body(builder):
-        if isinstance(n, ast.Assign) and isinstance(n.value, ast.BinOp) and isinstance(n.value.op, ast.Mult) and isinstance(n.value.left, ast.List) and isinstance(n.targets[0], ast.Name):
+        if isinstance(n, ast.Assign) and isinstance(n.value, ast.BinOp) and isinstance(n.value.op, ast.Mult) and isinstance(n.targets[0], ast.Name) \
+                and (isinstance(n.value.left, ast.List) != isinstance(n.value.right, ast.List)):
             matrix = n.targets[0].id
-            rowcount = inline(n.value.right, defs)
+            rowcount = inline(n.value.left if isinstance(n.value.right, ast.List) else n.value.right, defs)
     if matrix is None:
         raise AnchorMissing("matrix allocation `[None] * <rows>` in the builder")
 
@@ -97,9 +116,10 @@ def run(chk):
             if isinstance(n, ast.For) and isinstance(n.iter, ast.Call) and last_attr(n.iter.func) == "range" and len(n.iter.args) == 1 and isinstance(n.target, ast.Name):
                 if inline(n.iter.args[0], defs) != rowcount or _has_jump(n):
                     continue
-                if len(n.body) != 1:
+                lbody = [s_ for s_ in n.body if not is_logging_stmt(s_)]
+                if len(lbody) != 1:
                     continue
-                st = n.body[0]
+                st = lbody[0]
                 if isinstance(st, ast.Expr) and isinstance(st.value, ast.Call) and last_attr(st.value.func) == "append" and isinstance(st.value.func, ast.Attribute):
                     recv = st.value.func.value
                     if isinstance(recv, ast.Subscript) and isinstance(recv.value, ast.Name) and recv.value.id == matrix and isinstance(recv.slice, ast.Name) and recv.slice.id == n.target.id:
@@ -168,12 +188,14 @@ def run(chk):
     if jr is None or mv is None:
         raise AnchorMissing("Driver.joinpoint_reached / move_to_next_task")
     gjr = cfg_of(jr)
-    drive_sites = [c for c in package_calls(repo, "Drive") if isinstance(source.parent(c), ast.Call)]
+    drive_sites = package_calls(repo, "Drive")
     if not drive_sites:
         raise AnchorMissing("construction of Drive")
     for c in drive_sites:
         fn = source.enclosing_func(c)
         cls = source.enclosing_class(c)
+        if fn is None:
+            raise AnchorMissing(f"function enclosing the construction of Drive at {source.loc(c)}")
         ok = cls is not None and cls.name == "DriverActor" and not fn.name.startswith("receive")
         callers = [x for x in package_calls(repo, fn.name) if source.enclosing_func(x) is not fn]
         ok = ok and bool(callers) and all(source.enclosing_func(x) is mv for x in callers)
@@ -202,8 +224,7 @@ def run(chk):
     left_is_counter = is_self_attr(bt.test.left, counter)
     other = bt.test.comparators[0] if left_is_counter else bt.test.left
     # the test is evaluated for arrived in (1, 2, 3) of 3 workers: it must separate exactly `arrived == 3`; the arm taken then is the barrier-closed arm
-    from sa import minieval as _me
-    _cmp = _me._CMP.get(type(bt.test.ops[0]))
+    _cmp = _me._CMP.get(type(bt.test.ops[0])) if type(bt.test.ops[0]) in (ast.Eq, ast.NotEq, ast.Lt, ast.LtE, ast.Gt, ast.GtE) else None
     res = [(_cmp(a, 3) if left_is_counter else _cmp(3, a)) for a in (1, 2, 3)] if _cmp is not None else [None] * 3
     ok = u(other) == "len(self.workers)" and res[0] == res[1] and res[1] != res[2] and None not in res
     closed_pol = bool(res[2])
@@ -220,7 +241,7 @@ def run(chk):
     for x in mv_calls:
         gs = guards(x)
         in_barrier = any(t is bt.test and pol == closed_pol for t, pol in gs)
-        not_finished = any((not pol) and isinstance(t, ast.Call) and last_attr(t.func) == "finished" for t, pol in gs)
+        not_finished = _call_fact(x, "finished", False)
         chk.ob("O1.2", "next element driven only behind barrier and not finished", in_barrier and not_finished, x,
                f"guards: {[(u(t), pol) for t, pol in gs]}")
 
@@ -283,16 +304,18 @@ def run(chk):
     chk.rule("O1.3", "BenchmarkComplete is constructed at one site reached only behind barrier-complete and finished; the step attribute is incremented exactly "
              "once before the finished test; finished compares it with len(join_points)-1; counter and per-step map are reset before any message is sent", 6,
              "last element, any worker count: completion reported early, twice or never")
-    bc = [c for c in package_calls(repo, "BenchmarkComplete") if isinstance(source.parent(c), ast.Call)]
+    bc = package_calls(repo, "BenchmarkComplete")
     chk.ob("O1.3", "single construction site of BenchmarkComplete", len(bc) == 1, bc[0] if bc else drv.tree, f"{len(bc)} site(s)")
     for c in bc:
         fn = source.enclosing_func(c)
+        if fn is None:
+            raise AnchorMissing(f"function enclosing the construction of BenchmarkComplete at {source.loc(c)}")
         callers = [x for x in package_calls(repo, fn.name) if source.enclosing_func(x) is not fn and source.enclosing_class(x) is not None
                    and source.enclosing_class(x).name in ("Driver",)]
         ok = bool(callers) and all(source.enclosing_func(x) is jr for x in callers)
         for x in callers:
             gs = guards(x)
-            ok = ok and any(t is bt.test and pol == closed_pol for t, pol in gs) and any(pol and isinstance(t, ast.Call) and last_attr(t.func) == "finished" for t, pol in gs)
+            ok = ok and any(t is bt.test and pol == closed_pol for t, pol in gs) and _call_fact(x, "finished", True)
         chk.ob("O1.3", "completion only behind barrier and finished", ok, c, f"callers: {[source.loc(x) for x in callers]}")
     fin = dm.get("finished")
     if fin is None:
@@ -303,15 +326,25 @@ def run(chk):
     if len(rets) == 1 and isinstance(rets[0].value, ast.Compare) and len(rets[0].value.ops) == 1:
         cmpn = rets[0].value
         l, r = cmpn.left, cmpn.comparators[0]
-        if is_self_attr(l) and is_self_attr(r) and isinstance(cmpn.ops[0], (ast.Eq, ast.GtE)):
-            stepattr, total = l.attr, r.attr
-            # total assigned from len(<allocator>.join_points) - 1
+        if is_self_attr(l) and is_self_attr(r) and l.attr != r.attr and type(cmpn.ops[0]) in (ast.Eq, ast.NotEq, ast.Lt, ast.LtE, ast.Gt, ast.GtE):
+            # roles, not operand positions: the total is the operand start_benchmark assigns, the step attribute is the operand joinpoint_reached writes
             sb = dm.get("start_benchmark")
+
+            def _written(fn_, attr):
+                return fn_ is not None and any(isinstance(n, (ast.Assign, ast.AugAssign)) and any(is_self_attr(t, attr) for t in (n.targets if isinstance(n, ast.Assign) else [n.target]))
+                                               for n in walk_body(fn_))
+
+            total_is_left = (_written(sb, l.attr) and not _written(sb, r.attr)) or (_written(jr, r.attr) and not _written(jr, l.attr))
+            stepattr, total = (r.attr, l.attr) if total_is_left else (l.attr, r.attr)
+            # the comparison is evaluated for step in (0, 1, 2) of total 2: it must hold exactly from step == total on
+            _fc = _me._CMP[type(cmpn.ops[0])]
+            shape = [bool(_fc(2, s) if total_is_left else _fc(s, 2)) for s in (0, 1, 2)] == [False, False, True]
+            # total assigned from len(<allocator>.join_points) - 1
             for n in walk_body(sb) if sb else []:
                 if isinstance(n, ast.Assign) and any(is_self_attr(t, total) for t in n.targets):
                     v = n.value
-                    ok = isinstance(v, ast.BinOp) and isinstance(v.op, ast.Sub) and source.is_const(v.right, 1) and isinstance(v.left, ast.Call) and last_attr(v.left.func) == "len" \
-                        and last_attr(v.left.args[0]) == "join_points"
+                    ok = shape and isinstance(v, ast.BinOp) and isinstance(v.op, ast.Sub) and source.is_const(v.right, 1) and isinstance(v.left, ast.Call) and last_attr(v.left.func) == "len" \
+                        and bool(v.left.args) and last_attr(v.left.args[0]) == "join_points"
     chk.ob("O1.3", "finished: step == len(join_points) - 1", ok, fin, short(rets[0], 70) if rets else "")
     if stepattr:
         sincs = [n for m in dm.values() for n in walk_body(m) if isinstance(n, (ast.AugAssign, ast.Assign)) and
@@ -320,9 +353,10 @@ def run(chk):
             and [t is bt.test and pol == closed_pol for t, pol in guards(sincs[0])] == [True]
         chk.ob("O1.3", "step attribute incremented exactly once per closed barrier", ok, sincs[0] if sincs else jr, f"{len(sincs)} writer(s) of self.{stepattr} outside __init__")
         if sincs:
-            fin_tests = [n for n in walk_body(jr) if isinstance(n, ast.If) and isinstance(n.test, ast.Call) and last_attr(n.test.func) == "finished"]
+            # every evaluation of finished() in the handler routine (whatever the polarity / form of the test it feeds)
+            fin_tests = [n for n in walk_body(jr) if isinstance(n, ast.Call) and last_attr(n.func) == "finished"]
             ok = bool(fin_tests) and all(gjr.dominated_by_nodes(gjr.node_of(t), [gjr.node_of(sincs[0])]) for t in fin_tests)
-            chk.ob("O1.3", "step incremented before the finished test", ok, fin_tests[0] if fin_tests else jr, "")
+            chk.ob("O1.3", "step incremented before the finished test", ok, source.enclosing_stmt(fin_tests[0]) if fin_tests else jr, "")
     # resets before any message
     resets = [n for n in walk_body(jr) if isinstance(n, ast.Assign) and any(is_self_attr(t, counter) or (stepmap and is_self_attr(t, stepmap)) for t in n.targets)
               and any(t is bt.test and pol == closed_pol for t, pol in guards(n))]
@@ -346,14 +380,8 @@ def run(chk):
         raise AnchorMissing("complete_current_task call in may_complete_current_task")
     flag = None
     for c in cc_calls:
-        gs = guards(c)
-        negs = []
-        for t, pol in gs:
-            for a in ([t] if not isinstance(t, ast.BoolOp) else t.values):
-                if pol and isinstance(a, ast.UnaryOp) and isinstance(a.op, ast.Not) and is_self_attr(a.operand):
-                    if isinstance(t, ast.BoolOp) and not isinstance(t.op, ast.And):
-                        continue
-                    negs.append(a.operand.attr)
+        # guard facts (negations pushed in, conjunctions split, either arm): `not self.<flag>`
+        negs = [f_.operand.attr for f_ in _pat.fact_nodes(c) if _is_not(f_, is_self_attr)]
         f0 = negs[0] if negs else None
         flag = flag or f0
         sets = [n for n in walk_body(mc) if isinstance(n, ast.Assign) and any(is_self_attr(t, f0) for t in n.targets) and source.is_const(n.value, True)] if f0 else []
@@ -388,9 +416,11 @@ def run(chk):
     mc_calls = package_calls(repo, "may_complete_current_task")
     ok = bool(mc_calls) and all(source.enclosing_func(x) is jr and any(t is bt.test and pol != closed_pol for t, pol in guards(x)) for x in mc_calls)
     chk.ob("O1.4", "completion check only while the barrier is still open", ok, mc_calls[0] if mc_calls else mc, "")
-    ccs = [c for c in package_calls(repo, "CompleteCurrentTask") if isinstance(source.parent(c), ast.Call)]
+    ccs = package_calls(repo, "CompleteCurrentTask")
     for c in ccs:
         fn = source.enclosing_func(c)
+        if fn is None:
+            raise AnchorMissing(f"function enclosing the construction of CompleteCurrentTask at {source.loc(c)}")
         callers = [x for x in package_calls(repo, fn.name) if source.enclosing_func(x) is not fn]
         ok = all(source.enclosing_func(x) is mc for x in callers) and bool(callers)
         chk.ob("O1.4", "CompleteCurrentTask constructed only for may_complete_current_task", ok, c, f"callers {[source.qualname(x) for x in callers]}")
@@ -407,29 +437,39 @@ def run(chk):
     if wd is None:
         raise AnchorMissing("Worker.drive")
     gwd = cfg_of(wd)
-    jps = [c for c in package_calls(repo, "JoinPointReached") if isinstance(source.parent(c), ast.Call)]
+    jps = package_calls(repo, "JoinPointReached")
     chk.ob("O1.5", "single construction site of JoinPointReached", len(jps) == 1 and source.enclosing_func(jps[0]) is wd, jps[0] if jps else wd, f"{len(jps)} site(s)")
     for c in jps:
         if source.enclosing_func(c) is not wd:
             continue
         send = source.parent(c)
+        if not isinstance(send, ast.Call):
+            # the message is held in a local first: the send is the call that gets that local as an argument
+            tg_ = send.targets[0].id if isinstance(send, ast.Assign) and len(send.targets) == 1 and isinstance(send.targets[0], ast.Name) else None
+            uses = [n for n in walk_body(wd) if isinstance(n, ast.Call) and last_attr(n.func) == "send" and tg_ is not None and any(isinstance(a, ast.Name) and a.id == tg_ for a in n.args)]
+            if not uses:
+                raise AnchorMissing("send(...) of the JoinPointReached message constructed in Worker.drive")
+            send = uses[0]
         sn = gwd.node_of(send)
         gs = guards(send)
-        ok = any(pol and isinstance(t, ast.Call) and last_attr(t.func) == "at_joinpoint" for t, pol in gs) and len(gs) == 1
+        fs_ = _pat.fact_nodes(send)
+        ok = len(fs_) == 1 and isinstance(fs_[0], ast.Call) and last_attr(fs_[0].func) == "at_joinpoint"
         chk.ob("O1.5", "sent only at a join point", ok, send, f"guards {[(u(t), p) for t, p in gs]}")
         res = [n for n in walk_body(wd) if isinstance(n, ast.Call) and last_attr(n.func) == "result" and isinstance(n.func, ast.Attribute) and is_self_attr(n.func.value, "executor_future")]
         ok = False
         if res:
-            rg = [(u(t), p) for t, p in guards(res[0])]
-            # only guarded by the join-point test and `future is not None`
-            extra = [x for x in guards(res[0]) if not (isinstance(x[0], ast.Call) and last_attr(x[0].func) == "at_joinpoint") and not
-                     (x[1] and u(x[0]) in ("self.executor_future is not None", "self.executor_future"))]
+            # only guarded by the join-point test and `future is not None` (guard facts: either arm, either polarity of the written test)
+            def _jp(f_):
+                return isinstance(f_, ast.Call) and last_attr(f_.func) == "at_joinpoint"
+
+            extra = [f_ for f_ in _pat.fact_nodes(res[0]) if not (_jp(f_) or _is_not(f_, _jp)) and not _pat.is_(f_, "self.executor_future is not None", "None is not self.executor_future", "self.executor_future")]
             ok = not extra and not gwd.path_exists(sn, gwd.node_of(res[0]), avoid=[gwd.entry])
-            # the send is not reachable from the future test's true edge without passing result()
+            # the send is not reachable from the arm of the future test that holds result() without passing result()
             ift = source.enclosing(res[0], ast.If)
             if ok and ift is not None:
                 tnode = gwd.node_of(ift)
-                tstarts = gwd.edge_targets(tnode, "true")
+                arm = "true" if any(res[0] in list(ast.walk(s_)) for s_ in ift.body) else "false"
+                tstarts = gwd.edge_targets(tnode, arm)
                 ok = all(sn.id not in gwd.reachable([s], avoid=[gwd.node_of(res[0])]) for s in tstarts)
         chk.ob("O1.5", "executor future awaited before the barrier message", ok, res[0] if res else send, "result() on the pending future precedes JoinPointReached" if ok else "the future is not (always) awaited")
         for what, pred in (("samples shipped", lambda n: isinstance(n, ast.Call) and last_attr(n.func) == "send_samples"),
@@ -457,10 +497,8 @@ def run(chk):
             continue  # decided below as a truth table over (at join point, Drive pending)
         elif cls is not None and cls.name == "AsyncExecutor" and fn is ex_call:
             in_finally = any(isinstance(a, ast.Try) and any(s in list(ast.walk(fb)) for fb in a.finalbody) for a in source.ancestors(s))
-            names = []
-            for t, pol in gs:
-                if pol and isinstance(t, ast.Name):
-                    names.append(inline(t, edefs))
+            # positive guard facts (either arm of the written test), locals resolved to what they were assigned from
+            names = [inline(f_, edefs) for f_ in _pat.fact_nodes(s) if isinstance(f_, (ast.Name, ast.Attribute))]
             ok = in_finally and any(x in ("self.task.completes_parent", "self.task.any_completes_parent") for x in names)
             chk.ob("O1.6", "executor: complete.set() only for a task that completes its parent", ok, s, f"in finally={in_finally}, cause={names}")
         else:
@@ -471,10 +509,8 @@ def run(chk):
     for cause in ("self.task.completes_parent", "self.task.any_completes_parent"):
         have = False
         for s_ in ex_sets:
-            for t, pol in guards(s_):
-                if pol and isinstance(t, ast.Name) and inline(t, edefs) == cause:
-                    have = True
-                if pol and u(t) == cause:
+            for f_ in _pat.fact_nodes(s_):
+                if isinstance(f_, (ast.Name, ast.Attribute)) and cause in (inline(f_, edefs), u(f_)):
                     have = True
         chk.ob("O1.6", f"executor signals completion when {cause.split('.')[-1]}", have, ex_call,
                "complete.set() in the finally under this cause" if have else "no complete.set() for this cause: sibling clients in the same worker keep running, no worker reaches the join point, the race hangs",
@@ -482,7 +518,6 @@ def run(chk):
 
     # the complete event may end the request loop only for a task that does not itself complete its parent: several clients of the completing task share the
     # worker's event, and the first of them to finish sets it
-    from sa import pat as _pat
     xloops = [n for n in walk_body(ex_call) if isinstance(n, (ast.AsyncFor, ast.For, ast.While))]
     if not xloops:
         raise AnchorMissing("request loop in AsyncExecutor.__call__")
@@ -581,13 +616,16 @@ def run(chk):
 
     def progress_nodes(fn, g, cls):
         out = []
+        fdefs = local_defs(fn)
         for n in walk_body(fn):
             if isinstance(n, ast.Call):
                 nm = last_attr(n.func)
+                payload = n.args[1] if nm == "send" and len(n.args) >= 2 else None
+                if isinstance(payload, ast.Name):  # the message constructed into a (single-assignment) local first
+                    payload = fdefs.get(payload.id)
                 if nm == "wakeupAfter":
                     out.append(g.node_of(n))
-                elif nm == "send" and len(n.args) >= 2 and isinstance(n.args[1], ast.Call) and last_attr(n.args[1].func) in (
-                        "JoinPointReached", "BenchmarkFailure", "BenchmarkCancelled", "ReadyForWork", "WorkerIdle"):
+                elif isinstance(payload, ast.Call) and last_attr(payload.func) in ("JoinPointReached", "BenchmarkFailure", "BenchmarkCancelled", "ReadyForWork", "WorkerIdle"):
                     out.append(g.node_of(n))
                 elif nm == "drive" and isinstance(n.func, ast.Attribute) and isinstance(n.func.value, ast.Name) and n.func.value.id == "self":
                     out.append(g.node_of(n))
@@ -615,13 +653,15 @@ def run(chk):
     # start_driving flag: set by Drive, consumed (reset) before drive() in the wake-up handler
     wk = W.methods["receiveMsg_WakeupMessage"]
     gwk = cfg_of(wk)
-    sd_tests = [n for n in walk_body(wk) if isinstance(n, ast.If) and is_self_attr(n.test, "start_driving")]
-    ok = False
-    if sd_tests:
-        t = sd_tests[0]
-        resets = [n for n in t.body if isinstance(n, ast.Assign) and any(is_self_attr(x, "start_driving") for x in n.targets) and source.is_const(n.value, False)]
-        drives = [n for s in t.body for n in source.walk_local(s) if isinstance(n, ast.Call) and u(n.func) == "self.drive"]
-        ok = bool(resets) and bool(drives)
+    sd_tests = [n for n in walk_body(wk) if isinstance(n, ast.If) and any(is_self_attr(x, "start_driving") for x in ast.walk(n.test))]
+
+    def _sd(n):
+        """n executes only when start_driving was found set (guard fact, whichever arm / polarity the test is written in)"""
+        return any(is_self_attr(f_, "start_driving") for f_ in _pat.fact_nodes(n))
+
+    resets = [n for n in walk_body(wk) if isinstance(n, ast.Assign) and any(is_self_attr(x, "start_driving") for x in n.targets) and source.is_const(n.value, False) and _sd(n)]
+    drives = [n for n in walk_body(wk) if isinstance(n, ast.Call) and u(n.func) == "self.drive" and _sd(n)]
+    ok = bool(resets) and bool(drives)
     chk.ob("O1.7", "Drive -> start_driving -> wake-up -> drive() hand-over", ok, sd_tests[0] if sd_tests else wk, "flag consumed (reset) and drive() called" if ok else "start_driving is not consumed/reset before driving")
     dr = W.methods["receiveMsg_Drive"]
     ok = any(isinstance(n, ast.Assign) and any(is_self_attr(x, "start_driving") for x in n.targets) and source.is_const(n.value, True) for n in walk_body(dr))
@@ -674,9 +714,10 @@ def run(chk):
             if entry and apps:
                 ev_ = u(entry[0].targets[0])
                 a0 = apps[0].args[0]
-                gs_ = guards(apps[0], stop=Lr)
-                ats_ = [u(x) for t, pol in gs_ if pol for x in (t.values if isinstance(t, ast.BoolOp) and isinstance(t.op, ast.And) else [t])]
-                ok = [u(x) for x in a0.args] == [f"{av}['client_id']", ev_] and f"{ev_} is not None" in ats_ and all(x in (f"{ev_} is not None", params_of(tk)[2]) for x in ats_) and not _has_jump(Lr)
+                # guard facts of the append (either arm, any conjunct order): `<entry> is not None`, and nothing else but the remove_empty parameter
+                fs_ = _pat.fact_nodes(apps[0], stop=Lr)
+                nn_ = [f_ for f_ in fs_ if _pat.is_(f_, "V_e is not None", "None is not V_e", binds={"e": ev_})]
+                ok = [u(x) for x in a0.args] == [f"{av}['client_id']", ev_] and bool(nn_) and all(f_ in nn_ or (isinstance(f_, ast.Name) and f_.id == params_of(tk)[2]) for f_ in fs_) and not _has_jump(Lr)
     chk.ob("O1.10", "row view: (client id, its own entry) for every non-empty entry", ok, tk if tk is not None else CA, "")
     AD = drv.cls("AsyncIoAdapter")
     arun = drv.methods(AD).get("run")
@@ -703,7 +744,7 @@ def run(chk):
         ppt = sf_[0].args[1].value.id if ok else None
         chk.ob("O1.10", "schedule computed for this allocation with the task's (shared) parameter source", ok, sf_[0] if sf_ else AL_, "")
         ps_ = [n for n in ast.walk(AL_) if isinstance(n, ast.Call) and last_attr(n.func) == "operation_parameters"]
-        ok = len(ps_) == 1 and ppt is not None and any(pol and isinstance(t, ast.Compare) and isinstance(t.ops[0], ast.NotIn) and u(t.comparators[0]) == ppt for t, pol in guards(ps_[0], stop=AL_))
+        ok = len(ps_) == 1 and ppt is not None and _pat.guarded(ps_[0], "E_k not in V_p", stop=AL_, binds={"p": ppt}) is not None
         chk.ob("O1.10", "one parameter source per task (created on first sight only)", ok, ps_[0] if ps_ else AL_, "")
     ga = [n for n in walk_body(arun) if isinstance(n, ast.Call) and dotted(n.func) == "asyncio.gather"]
     ok = len(ga) == 1 and awl is not None and [u(x) for x in ga[0].args] == [f"*{awl}"] and isinstance(source.parent(ga[0]), ast.Await)
@@ -712,8 +753,10 @@ def run(chk):
     # ---- O1.8 advisory: executor honours the flags ---------------------------------------------------------------------------------------------
     loops = [n for n in walk_body(ex_call) if isinstance(n, ast.AsyncFor)]
     if loops:
-        first = loops[0].body[0]
-        if not (isinstance(first, ast.If) and "cancel.is_set" in u(first.test) and any(isinstance(x, ast.Break) for x in first.body)):
+        lb_ = [s_ for s_ in loops[0].body if not is_logging_stmt(s_)]
+        first = lb_[0] if lb_ else loops[0]
+        brk_ = [b_ for b_ in ast.walk(first) if isinstance(b_, ast.Break) and any(isinstance(f_, ast.Call) and u(f_.func).endswith("cancel.is_set") for f_ in _pat.fact_nodes(b_, stop=loops[0]))]
+        if not (isinstance(first, ast.If) and brk_):
             chk.adv("O1.8", "the request loop does not start with `if cancel.is_set(): break`", first)
         if not any(isinstance(n, ast.Call) and u(n.func) == "self.complete.is_set" for n in ast.walk(loops[0])):
             chk.adv("O1.8", "the request loop never reads complete.is_set()", loops[0])
